@@ -1046,11 +1046,11 @@ func checkWait(c *Ctx) {
 	info := p.TypesInfo
 	// the function registered under "wait"
 	var waitFn *Func
-	for _, f := range w.FuncsIn(p) {
-		if f.Body == nil {
+	for _, file := range p.Syntax {
+		if strings.HasSuffix(w.Fset.Position(file.Pos()).Filename, "_test.go") {
 			continue
 		}
-		ast.Inspect(f.Body, func(n ast.Node) bool {
+		ast.Inspect(file, func(n ast.Node) bool {
 			kv, ok := n.(*ast.KeyValueExpr)
 			if !ok {
 				return true
